@@ -43,6 +43,10 @@ func (P) Monitor(c *hx.CaseRun) []hx.Failure {
 	spentOut := map[string]int{}
 	nextNonce := map[int]int{}
 	failedReceipts := 0
+	// account->confidential transactions: amount by id, and what the committed ones must have put into the pool (streams without spends)
+	ainAmount := map[int]int64{}
+	ainCommitted := map[int]int{}
+	spends := false
 	_ = failedReceipts
 	for i, op := range c.Ops {
 		ans := c.Impl[i]
@@ -53,8 +57,29 @@ func (P) Monitor(c *hx.CaseRun) []hx.Failure {
 			n, _ := strconv.Atoi(v)
 			return n
 		}
+		if toks[0] == "uu" || toks[0] == "ua" || toks[0] == "uxbad" {
+			spends = true
+		}
+		if toks[0] == "bal" && !spends && strings.HasPrefix(ans, "a=") {
+			// every committed account->confidential transaction created its outputs exactly once: the pool (as its owners see it) holds
+			// exactly the amounts of the DISTINCT committed ones
+			var want int64
+			for id := range ainCommitted {
+				want += ainAmount[id]
+			}
+			ps, _ := hx.Arg(a, "pool")
+			got, _ := strconv.ParseInt(ps, 10, 64)
+			if got != want {
+				fs = append(fs, hx.Failure{Monitor: "output_created_once", Class: "output-created-twice", Site: "types/tx_utxo.go:CheckStoreState",
+					Msg: fmt.Sprintf("the confidential pool holds %d units, the distinct committed account->confidential transactions put in %d: the outputs of one of them exist twice (or not at all)", got, want)})
+			}
+		}
 		if ids, ok := hx.Arg(a, "id"); ok {
 			id, _ := strconv.Atoi(ids)
+			if toks[0] == "ain" {
+				am, _ := hx.Arg(toks, "amount")
+				ainAmount[id], _ = strconv.ParseInt(am, 10, 64)
+			}
 			info[id] = txinfo{kind: toks[0], from: geti(toks, "from"), nonce: geti(toks, "nonce"), w: geti(toks, "w"), in: geti(toks, "in")}
 		}
 		if strings.HasPrefix(ans, "panic") {
@@ -105,6 +130,9 @@ func (P) Monitor(c *hx.CaseRun) []hx.Failure {
 				}
 				ti := info[id]
 				committedTx[id]++
+				if ti.kind == "ain" {
+					ainCommitted[id]++
+				}
 				if committedTx[id] > 1 {
 					fs = append(fs, hx.Failure{Monitor: "tx_committed_once", Class: "tx-committed-twice", Site: "app/state_processor.go:Process",
 						Msg: fmt.Sprintf("transaction %d (%s) was committed %d times", id, ti.kind, committedTx[id])})
@@ -137,6 +165,9 @@ func (P) Generate(g *hx.Gen) {
 	}
 	for k, nc := 0, g.Pick(40, 300); k < nc; k++ {
 		g.Case("contract transactions re-offered", c06.WithReceipts(ContractReuse(g)), true)
+	}
+	for k, ns := 0, g.Pick(40, 300); k < ns; k++ {
+		g.Case("forced blocks with off-nonce transactions of every nonce-consuming kind", c06.WithReceipts(c06.NonceGapCase(g)), true)
 	}
 	for k, ns := 0, g.Pick(2, 8); k < ns; k++ {
 		g.Case("real genesis: committed transactions re-offered between elections and awards", c06.WithReceipts(SysReuse(g)), true)
